@@ -421,7 +421,7 @@ NativeCall(name, args, vm, it, env, K, S, f) ==
 BindParams(fn, i, env, inp, K, S, f) ==
   IF i > Len(fn.ps) THEN Run(fn.body, inp, env, K, S, f - 1)
   ELSE IF fn.isvar[i] THEN
-       LET j == LookupFn(env, fn.bare[i], 0, Len(env)) IN
+       LET j == fn.cb + i IN      \* the closure of parameter i (positional: duplicate names are legal)
        Run(env[j].body, AsValueMode(inp), env[j].env,
            <<[k |-> "par", fn |-> fn, i |-> i + 1, env |-> env, inp |-> inp, name |-> fn.ps[i]]>> \o K, S, f - 1)
   ELSE BindParams(fn, i + 1, env, inp, K, S, f)
@@ -562,11 +562,11 @@ RunTerm(t, n, it, env, K, S, f) ==
          LET i == LookupFn(env, name, ar, Len(env)) IN
          IF i # 0 THEN
             IF env[i].b = "clo" THEN Run(env[i].body, it, env[i].env, K, S, f - 1)
-            ELSE BindParams(env[i], 1, SubSeq(env, 1, i) \o Closures(env[i], args, env), it, K, S, f - 1)
+            ELSE BindParams([cb |-> i] @@ env[i], 1, SubSeq(env, 1, i) \o Closures(env[i], args, env), it, K, S, f - 1)
          ELSE
          LET pi == LookupPrelude(name, ar, 1) IN
          IF pi # 0 THEN
-            LET fn == FnRec(Prelude[pi]) IN BindParams(fn, 1, Closures(fn, args, env), it, K, S, f - 1)
+            LET fn == FnRec(Prelude[pi]) IN BindParams([cb |-> 0] @@ fn, 1, Closures(fn, args, env), it, K, S, f - 1)
          ELSE
          \* special forms and natives
          CASE name = "empty" /\ ar = 0 -> Done(S)
